@@ -62,4 +62,19 @@ CHECKS = {
            "computed by the harness and checked against natsort on every case; lxml/generateDS parsing of member/include sampled; "
            "malformed cells (cycles, duplicate group ids) covered by correspondence only."),
  },
+ "C18": {
+  "category": "proof",
+  "technique": "Lean 4 proof over an executable hand model + model/implementation correspondence + numpy reference oracle",
+  "design_ref": "DESIGN.md §5 C18; notes/C18.md",
+  "text": ("For a literal model of arraymorph.py (Python negative indexing included) and of the ArrayMorphWriter/Loader file layout: "
+           "c18_toRoot / c18_toRoot_one_root / c18_root_unique (for EVERY tree, numbering, old root and new root j: the to_root loop "
+           "terminates, keeps the undirected edge set and leaves exactly one root at j), c18_view_count / _endpoints / _ids / "
+           "_one_per_vertex (segment view), c18_convert_eq_view (repaired conversion = view), c18_load_write_single (unconditional) and "
+           "c18_load_write_doc_partial (documents with any mix of cells and stand-alone morphologies under distinct group names), with "
+           "witnesses for the two repaired defects and the two open findings. Tied by a correspondence run over four streams and an "
+           "independent numpy oracle on the real code."),
+  "note": ("Hand-written model, sampled tie (about 2k cases quick, 23k thorough); PyTables array storage and name-sorted node iteration "
+           "trusted; numpy indexing as modelled; document round trip is _partial: open findings C18:doc-cell-and-morphology-share-name "
+           "and C18:doc-cell-morphology-named-vertices."),
+ },
 }
